@@ -198,5 +198,43 @@ func genVars(repo string) string {
 		"def declaredDefaultsApplied : Bool := " + leanBool(defaultsQuery) + "\n\n" +
 		"/-- the `start` arm of subscriptionHandler does the same before newSubscriptionEntry -/\n" +
 		"def declaredDefaultsAppliedSubscription : Bool := " + leanBool(defaultsSub) + "\n\n" +
+		"/-- format.go records variable types through `setVariableType` (the strictest type of all positions\n" +
+		"    wins) and nowhere by plain map assignment -/\n" +
+		"def strictestTypeWins : Bool := " + leanBool(strictestTypeWins(repo)) + "\n\n" +
 		"end PebblesVerif.Gen.Vars\n"
+}
+
+
+// strictestTypeWins: format/format.go declares `setVariableType` with the expected guard and no
+// function of the file assigns `res[…] = …` directly any more (except inside setVariableType).
+func strictestTypeWins(repo string) bool {
+	f := parseFile(filepath.Join(repo, "format", "format.go"))
+	if f == nil {
+		return false
+	}
+	fd := findFunc(f, "setVariableType", "")
+	if fd == nil || fd.Body == nil || len(fd.Body.List) != 2 {
+		return false
+	}
+	guard, ok := fd.Body.List[0].(*ast.IfStmt)
+	if !ok || !strings.Contains(norm(guard.Cond), `strings.Count(old, "!") >= strings.Count(typ, "!")`) ||
+		!strings.Contains(norm(guard.Cond), `strings.ReplaceAll(old, "!", "") == strings.ReplaceAll(typ, "!", "")`) {
+		return false
+	}
+	direct := false
+	for _, d := range f.Decls {
+		fn, ok := d.(*ast.FuncDecl)
+		if !ok || fn.Body == nil || fn.Name.Name == "setVariableType" {
+			continue
+		}
+		ast.Inspect(fn.Body, func(n ast.Node) bool {
+			if as, ok := n.(*ast.AssignStmt); ok && len(as.Lhs) == 1 {
+				if ix, ok := as.Lhs[0].(*ast.IndexExpr); ok && norm(ix.X) == "res" {
+					direct = true
+				}
+			}
+			return true
+		})
+	}
+	return !direct
 }
